@@ -1,4 +1,4 @@
-CONSTANTS Callers <- C3  MaxId = 4  StartIds = {3}  NPkts = 3  Foreign <- FPre  QMax = 9  Timed = FALSE  TO <- TO3  DialBound = 1  ReadTO = 1  Horizon = 0  SerialDial = TRUE  DialModes = {"accept"}  MayClose = FALSE  Transient <- LocalAll
+CONSTANTS Callers <- C3  MaxId = 4  StartIds = {3}  NPkts = 3  Foreign <- FPre  QMax = 9  Timed = FALSE  TO <- TO3  DialBound = 1  ReadTO = 1  Horizon = 0  SerialDial = TRUE  DialModes = {"accept"}  MayClose = FALSE  RecvOffers = TRUE  Stamp = FALSE  InlineRecv = FALSE  Transient <- LocalAll
 SPECIFICATION Spec
 INVARIANTS TypeOK ReplyMatches IdNonZero IdsDistinct OnePacketOneCaller AcctQueue AcctMgr AcctResp NoResidue
 PROPERTIES LateReplyHarmless OnlyAddressee
